@@ -2,6 +2,7 @@
 package fixture
 
 import (
+	"crypto/elliptic"
 	"errors"
 	"net/url"
 )
@@ -83,4 +84,32 @@ func d8ok(ref []byte) [32]byte { // guarded: not reported
 	return [32]byte(ref)
 }
 
-var _ = []interface{}{d8, d8ok, d6, d1, d2, d3, d5, d7, d7ok, (*comp).use, (*comp).checked}
+func d9(subject interface{}, id string) { // D9: a subject that is not an object leaves m nil; the assignment panics
+	m, _ := subject.(map[string]interface{})
+	if _, has := m["id"]; !has {
+		m["id"] = id
+	}
+}
+
+func d9ok(subject interface{}, id string) { // ok established: not reported
+	m, ok := subject.(map[string]interface{})
+	if !ok {
+		return
+	}
+	m["id"] = id
+}
+
+func d10(curve elliptic.Curve, b []byte) int { // D10: bytes that are no curve point give nil coordinates
+	x, _ := elliptic.UnmarshalCompressed(curve, b)
+	return x.BitLen()
+}
+
+func d10ok(curve elliptic.Curve, b []byte) int { // nil test: not reported
+	x, _ := elliptic.UnmarshalCompressed(curve, b)
+	if x == nil {
+		return 0
+	}
+	return x.BitLen()
+}
+
+var _ = []interface{}{d9, d9ok, d10, d10ok, d8, d8ok, d6, d1, d2, d3, d5, d7, d7ok, (*comp).use, (*comp).checked}
